@@ -50,9 +50,8 @@ Definition task_unsched (t : tinfo) : form :=
 
 (* Task.__init__ + subclass __init__ (set_assertions) *)
 Definition task_core (t : tinfo) : list form :=
-  task_window t ++
-  (if ti_opt t then [FIte (FB (BSched (ti_id t))) (FAnd (task_body t)) (task_unsched t)]
-   else task_body t).
+  if ti_opt t then [FIte (FB (BSched (ti_id t))) (FAnd (task_window t ++ task_body t)) (task_unsched t)]
+  else task_window t ++ task_body t.
 
 (* ------------------------------------------------------------------ *)
 (* Resource requirements appended to the task's assertion list *)
@@ -73,7 +72,7 @@ Definition enc_areq (t : tinfo) (a : areq) : list form :=
   match a with
   | AQDirect w dyn di eo =>
       let r := RW w in
-      if dyn then [FLe (BE r id false) (E_ t); FGe (BS r id false) (S_ t)]
+      if dyn then [FLe (BE r id false) (E_ t); FGe (BS r id false) (S_ t); FLe (BS r id false) (BE r id false)]
       else [ (if eo >? 0 then FEq (BE r id false) (TSub (E_ t) (TC eo)) else FEq (BE r id false) (E_ t));
              (if di >? 0 then FEq (BS r id false) (TAdd [S_ t; TC di]) else FEq (BS r id false) (S_ t)) ]
   | AQSelect s listed n k =>
@@ -101,8 +100,8 @@ Inductive cexpr (T O R SR : Type) :=
 | CPrecedence (tb ta : T) (off : Z) (k : pkind)
 | CStartSynced (a b : T) | CEndSynced (a b : T) | CDontOverlap (a b : T)
 | CContiguous (ts : list T)
-| CUGroup (ts : list T) (win : option (Z * Z)) (len : Z)
-| COGroup (ts : list T) (win : option (Z * Z)) (len : Z) (k : pkind)
+| CUGroup (ts : list T) (win : option (Z * Z)) (len : option Z)
+| COGroup (ts : list T) (win : option (Z * Z)) (len : option Z) (k : pkind)
 | CForceSched (t : T) (b : bool)
 | CCondSched (t : T) (cond : form)
 | CDependency (a b : T)
@@ -187,7 +186,10 @@ Fixpoint consec (a b : list term) : list (term * term) :=
 
 Definition op_asserts (x : operand opres) : list form :=
   match x with OpC o => or_asserts o | OpRaw f => [f] end.
-Definition ops_flat (xs : list (operand opres)) : list form := flat_map op_asserts xs.
+(* _constraints_to_list_of_assertions: one formula per operand *)
+Definition op_meaning (x : operand opres) : form :=
+  match x with OpC o => FAnd (or_asserts o) | OpRaw f => f end.
+Definition ops_flat (xs : list (operand opres)) : list form := map op_meaning xs.
 
 Definition bsv (w : wref) (b : busyent) := BS (RW w) (ti_id (be_task b)) (be_maybe b).
 Definition bev (w : wref) (b : busyent) := BE (RW w) (ti_id (be_task b)) (be_maybe b).
@@ -243,9 +245,10 @@ Definition interrupted_worker (w : wref) (busy : list busyent) (ivs : list (Z * 
     | _ => map (fun '(lo, hi) => FXor (FGe bs (TC hi)) (FLe be (TC lo))) ivs
     end) busy).
 
-(* ResourcePeriodicallyInterrupted, one worker (only plain workers reach this) *)
+(* ResourcePeriodicallyInterrupted, one worker; last = the busy interval whose variables
+   the Python loop variables still hold when this worker has none *)
 Definition pinterrupted_worker (w : wref) (busy : list busyent) (ivs : list (Z * Z))
-           (period start offset : Z) (end_ : option Z) : form :=
+           (period start offset : Z) (end_ : option Z) (last : option (wref * busyent)) : form :=
   let P := TC period in
   let conds := flat_map (fun b =>
     let bs := bsv w b in let be := bev w b in let t := be_task b in
@@ -269,12 +272,21 @@ Definition pinterrupted_worker (w : wref) (busy : list busyent) (ivs : list (Z *
     end) busy in
   let core := FAnd conds in
   (* the mask uses the loop variables left over from the last busy interval *)
-  match rev busy with
-  | [] => core
-  | b :: _ =>
-      let mask := [core] ++ (if start >? 0 then [FLe (bev w b) (TC start)] else [])
-                         ++ (match end_ with Some e => [FGe (bsv w b) (TC e)] | None => [] end) in
+  match (match rev busy with b :: _ => Some (w, b) | [] => last end) with
+  | None => core
+  | Some (w', b) =>
+      let mask := [core] ++ (if start >? 0 then [FLe (bev w' b) (TC start)] else [])
+                         ++ (match end_ with Some e => [FGe (bsv w' b) (TC e)] | None => [] end) in
       match mask with [_] => core | _ => FOr mask end
+  end.
+Fixpoint pinterrupted_units (us : list (wref * list busyent)) (ivs : list (Z * Z))
+         (period start offset : Z) (end_ : option Z) (last : option (wref * busyent)) : list form :=
+  match us with
+  | [] => []
+  | (w, l) :: r =>
+      pinterrupted_worker w l ivs period start offset end_ last
+      :: pinterrupted_units r ivs period start offset end_
+           (match rev l with b :: _ => Some (w, b) | [] => last end)
   end.
 
 Definition nondelay_like (c : nat) (starts ends : list term)
@@ -308,13 +320,15 @@ Definition check_c (e : rcexpr) : bool :=
       && negb (match ivs with [] => true | _ => false end)
   | CInterrupted r _ => negb (match all_busy r with [] => true | _ => false end)
   | CPeriodicUnavailable r ivs _ _ _ _ =>
-      match rs_obj r with ResC _ => false | ResW _ =>
-        negb (match all_busy r with [] => true | _ => false end)
-        && negb (match ivs with [] => true | _ => false end) end
-  | CPeriodicInterrupted r ivs period _ _ _ =>
-      match rs_obj r with ResC _ => false | ResW _ =>
-        negb (match all_busy r with [] => true | _ => false end)
-        && forallb (fun '(lo, hi) => hi <=? period) ivs end
+      negb (match all_busy r with [] => true | _ => false end)
+      && negb (match ivs with [] => true | _ => false end)
+  | CPeriodicInterrupted r ivs period start _ end_ =>
+      negb (match all_busy r with [] => true | _ => false end)
+      && forallb (fun '(lo, hi) => hi <=? period) ivs
+      (* the activity mask reads the loop variables of the last busy interval seen so far:
+         NameError when the first worker has none *)
+      && (negb ((start >? 0) || (match end_ with Some _ => true | None => false end))
+          || negb (match rs_units r with (_, []) :: _ => true | _ => false end))
   | CDistance r _ _ _ => (2 <=? Z.of_nat (length (rs_own r)))
   | CIndBounds _ lo hi => match lo, hi with None, None => false | _, _ => true end
   | _ => true
@@ -340,7 +354,8 @@ Definition enc_raw (c : nat) (e : rcexpr) : list form :=
       let gs := aux c 0 in let ge := aux c 1 in
       let head := match win with
                   | Some (lo, hi) => [FGe gs (TC lo); FLe ge (TC hi)]
-                  | None => [FLe ge (TAdd [gs; TC len])] end in
+                  | None => match len with Some l => [FLe ge (TAdd [gs; TC l])] | None => [] end
+                  end in
       let body := flat_map (fun t => [FGe (S_ t) gs; FLe (E_ t) ge]) ts in
       let order := match e with
                    | COGroup _ _ _ k =>
@@ -384,7 +399,7 @@ Definition enc_raw (c : nat) (e : rcexpr) : list form :=
         map (fun '(w, b) => punavail_one (bsv w b) (bev w b) lo hi period start offset end_) (all_busy r)) ivs
   | CInterrupted r ivs => map (fun '(w, l) => interrupted_worker w l ivs) (rs_units r)
   | CPeriodicInterrupted r ivs period start offset end_ =>
-      map (fun '(w, l) => pinterrupted_worker w l ivs period start offset end_) (rs_units r)
+      pinterrupted_units (rs_units r) ivs period start offset end_ None
   | CNonDelay r =>
       let o := own_w r in
       nondelay_like c (map (fun b => BS o (ti_id (be_task b)) (be_maybe b)) (rs_own r))
@@ -404,7 +419,7 @@ Definition enc_raw (c : nat) (e : rcexpr) : list form :=
   | CSameWorkers s1 s2 =>
       map (fun r => FIff (FB (BSel (s_ref s1) r)) (FB (BSel (s_ref s2) r))) (common_sel s1 s2)
   | CDistinctWorkers s1 s2 =>
-      map (fun r => FNot (FIff (FB (BSel (s_ref s1) r)) (FB (BSel (s_ref s2) r)))) (common_sel s1 s2)
+      map (fun r => FNot (FAnd [FB (BSel (s_ref s1) r); FB (BSel (s_ref s2) r)])) (common_sel s1 s2)
   | CLoad _ _ _ | CUnload _ _ _ => []
   | CIndTarget _ _ | CIndBounds _ _ _ => []      (* these bypass set_z3_assertions, see enc_direct *)
   end.
